@@ -131,11 +131,11 @@ def handleE (line : String) : Except String String := do
           acc := { acc with tags := s!"{pass}-model-syntactic" :: acc.tags }
         else if pass == "prop" then
           -- the textual result of the block-local insertion depends on HashMap iteration order:
-          -- the model output has to behave like the input (and the implementation output was
-          -- compared with the input above)
-          match compareProgramsSem "prop-model" cur m seeds fuel with
-          | .ok _ => acc := { acc with tags := "prop-model-semantic" :: acc.tags }
-          | .error (c, d) => acc := acc.addDiff c (shorten d)
+          -- compare up to that order (see `closeProgram`)
+          let mc := closeProgram cur m
+          let oc := closeProgram cur out
+          if mc == oc then acc := { acc with tags := "prop-model-up-to-order" :: acc.tags }
+          else acc := acc.addDiff "prop-model" (shorten (firstDiff mc oc))
         else if m != out then acc := acc.addDiff s!"{pass}-model" (shorten (firstDiff m out))
         else acc := acc.addDiff s!"{pass}-logs" (shorten s!"model={mlogs} impl={implLogs}")
       cur := out
